@@ -280,6 +280,13 @@ class SeqRoot(Module):
         return None
 
 
+class TorchHolder(nn.Module):
+    """a plain torch module (not an inferno Module)"""
+
+    def forward(self):
+        return None
+
+
 def _param_class(base, name):
     """inferno-style parameter target (cf. WeightMixin): parameter `<name>_`, property `<name>` whose setter
     assigns `.data`"""
@@ -295,8 +302,17 @@ def mk_tensor(dt, shape, vals):
     return torch.tensor(vals, dtype=torch.float64).reshape(shape).to(NDT[dt])
 
 
-def build_owner(kind, root, storage, name, tensor):
+def build_owner(kind, root, storage, name, tensor, owner="inferno"):
     """the object holding the final attribute"""
+    if storage == "param_direct" and owner != "inferno":
+        # a bare nn.Parameter attribute of a plain torch module / the weight of an nn.Linear
+        if owner == "linear" and not root and tensor.ndim == 2 and name == "weight":
+            o = nn.Linear(tensor.shape[1], tensor.shape[0], bias=False, dtype=tensor.dtype)
+            o.weight = nn.Parameter(tensor, False)
+        else:
+            o = TorchHolder()
+            o.register_parameter(name, nn.Parameter(tensor, False))
+        return o
     if storage in ("param", "param_direct") or storage == "buffer" or kind == "module" or root:
         base = SeqRoot if root else Holder
         if storage == "param":
@@ -319,7 +335,7 @@ def build_owner(kind, root, storage, name, tensor):
 def build_tree(case, comps, tensor, root):
     """object for path components `comps` (last = tensor attribute)"""
     if len(comps) == 1:
-        return build_owner(case["inter"], root, case["storage"], comps[0], tensor)
+        return build_owner(case["inter"], root, case["storage"], comps[0], tensor, case.get("owner", "inferno"))
     child = build_tree(case, comps[1:], tensor, False)
     o = SeqRoot() if root else (Holder() if case["inter"] == "module" else PlainObj())
     setattr(o, comps[0], child)
